@@ -192,4 +192,23 @@ theorem C04_gen_tokens_c :
 theorem C04_gen_tokens_cover : WireTokens.coverage Gen.C04.streams WireTokens.expected = true := by
   decide +kernel
 
+/-- Writer/reader mirror for **every** payload type `GetPayload` can return (CRCProposal once per
+    proposal type), every output payload, header, confirm, attribute, input, output, program:
+    the fully inlined write sequence of `Serialize` equals the read sequence of `Deserialize`
+    (limits erased).  Needs no schema: a dropped, added or reordered field on either side breaks it. -/
+theorem C04_gen_mirror_all : Gen.C04.mirrorStreams.all WireTokens.mirrors = true := by
+  decide +kernel
+
+theorem C04_gen_mirror_count : Gen.C04.mirrorStreams.length = 64 := by decide
+
+/-- the only writer-side `if x != nil` guard walked through (a nil `UpgradeCodeInfo` is written as
+    nothing and cannot be read back) -/
+theorem C04_gen_nil_guards : Gen.C04.nilGuards = ["p.UpgradeCodeInfo != nil"] := by decide
+
+/-- schema tokens = reader tokens (with limits) = writer tokens, on the deep streams, for the payloads
+    added in round 2 -/
+theorem C04_gen_tokens_deep :
+    WireTokens.expectedDeep.all (WireTokens.agree Gen.C04.mirrorStreams) = true := by
+  decide +kernel
+
 end ElaVerif.C04
